@@ -39,6 +39,8 @@ pub fn good_reply(req: &Req) -> (Vec<u8>, Values) {
 
 struct Wire {
     h: ClientSessionHarness,
+    /// the transport takes only a few bytes per write call: a frame then arrives in pieces
+    short_writes: bool,
     /// transaction id of the last frame seen on the wire
     last_tx: Option<u16>,
     /// requests rejected since then that may or may not have consumed a transaction id
@@ -47,9 +49,17 @@ struct Wire {
 
 impl Wire {
     fn new(rtu: bool) -> Self {
+        Self::with_short_writes(rtu, None)
+    }
+
+    /// `short`: the transport takes at most that many bytes per write call
+    fn with_short_writes(rtu: bool, short: Option<usize>) -> Self {
         let mut h = ClientSessionHarness::new(rtu, DecodeLevel::nothing(), None, 16);
+        if let Some(k) = short {
+            h.io.set_write_mode(crate::sim::WriteMode::AcceptAtMost(k));
+        }
         h.settle();
-        Wire { h, last_tx: None, slack: 0 }
+        Wire { h, short_writes: short.is_some(), last_tx: None, slack: 0 }
     }
 }
 
@@ -149,7 +159,7 @@ fn c03_case(w: &mut Wire, req: &Req, unit: u8, style: Style, st: &mut Stats) -> 
                     format!("wrong-encoding:fc{}", req.fc()),
                     format!("{:?} unit {unit}: wire {} expected pdu {}", short(req), hex(&flat), hex(&body)),
                 ));
-            } else if writes.len() != 1 {
+            } else if writes.len() != 1 && !w.short_writes {
                 out.push(("frame-split".into(), format!("frame written in {} pieces", writes.len())));
             }
             if flat.len() > if rtu { 256 } else { 260 } {
@@ -248,7 +258,7 @@ pub fn check_c03(tier: &str) -> i32 {
         "C03",
         tier,
         "exploration",
-        "exhaustive input enumeration: (a) AddressRange::try_from over (start,count) pairs against the closed-form predicate, (b) WriteMultiple::from over lengths 0..=2100 and 65535..=65537, (c) every request of the stated space submitted through the production client loop (TCP and RTU framing, 5 unit ids, future/callback/FfiChannel styles); every poll_write is logged and compared with the reference encoding; requests outside protocol limits must produce an error and zero bytes; (d) all sequences of up to 4 requests x outcomes {answered, exception, bad reply, timed out, connection lost, write error, write blocked after 0/1/7/11 bytes and resumed later} on the production TcpChannelTask: every frame written is the encoding of the next request with the next transaction id. distinct = distinct wire frames / rejection classes",
+        "exhaustive input enumeration: (a) AddressRange::try_from over (start,count) pairs against the closed-form predicate, (b) WriteMultiple::from over lengths 0..=2100 and 65535..=65537, (c) every request of the stated space submitted through the production client loop (TCP and RTU framing, 5 unit ids, future/callback/FfiChannel styles; also over a transport that takes 1 or 5 bytes per write call); every poll_write is logged and compared with the reference encoding; requests outside protocol limits must produce an error and zero bytes; (d) all sequences of up to 4 requests x outcomes {answered, exception, bad reply, timed out, connection lost, write error, write blocked after 0/1/7/11 bytes and resumed later} on the production TcpChannelTask: every frame written is the encoding of the next request with the next transaction id. distinct = distinct wire frames / rejection classes",
     );
     let thorough = rep.thorough();
     // (a) constructor
@@ -318,23 +328,29 @@ pub fn check_c03(tier: &str) -> i32 {
     // (c) through the channel
     let reqs = c03_requests(thorough);
     let units = [1u8, 0, 247, 248, 255];
-    let mut jobs: Vec<(bool, u8, Style)> = vec![];
+    let mut jobs: Vec<(bool, u8, Style, Option<usize>)> = vec![];
     for rtu in [false, true] {
         for (ui, u) in units.iter().enumerate() {
             for style in [Style::Future, Style::Callback, Style::Ffi] {
                 // every style with unit 1; every unit with the future style
                 if ui == 0 || style == Style::Future {
-                    jobs.push((rtu, *u, style));
+                    jobs.push((rtu, *u, style, None));
                 }
             }
         }
+        // a transport that takes 1 / 5 bytes per write call: the same frames, whole
+        jobs.push((rtu, 1, Style::Future, Some(1)));
+        jobs.push((rtu, 1, Style::Future, Some(5)));
     }
     let chunk = 4096usize;
     let n_chunks = reqs.len().div_ceil(chunk);
     let st = parallel(jobs.len() * n_chunks, |j, st| {
-        let (rtu, unit, style) = jobs[j / n_chunks];
+        let (rtu, unit, style, short_writes) = jobs[j / n_chunks];
         let part = &reqs[(j % n_chunks) * chunk..((j % n_chunks + 1) * chunk).min(reqs.len())];
-        let mut w = Wire::new(rtu);
+        let mut w = Wire::with_short_writes(rtu, short_writes);
+        if short_writes.is_some() {
+            st.class("short-writes");
+        }
         for req in part {
             st.evaluations += 1;
             let describe = || ("c03".to_string(), format!("{style:?} {}", short(req)), json!({"kind": "c03", "rtu": rtu, "unit": unit, "style": style, "req": req_to_json(req)}));
@@ -349,7 +365,7 @@ pub fn check_c03(tier: &str) -> i32 {
                 });
             }
             if failed {
-                w = Wire::new(rtu);
+                w = Wire::with_short_writes(rtu, short_writes);
             }
             if st.evaluations % 3001 == 0 {
                 st.sample(json!({"rtu": rtu, "unit": unit, "style": format!("{style:?}"), "req": short(req)}));
